@@ -274,6 +274,18 @@ pub fn capacity(r: &dyn Runner, tier: Tier, st: &St, lmax: usize, out: &mut Vec<
     if st.len <= 2 && st.spare != Spare::Scrub { out.push(Edge::Cap(Api::Typed, CapCall::PushRun, 0)); }
 }
 
+/// raw parts (C17)
+pub fn rawparts(_r: &dyn Runner, _tier: Tier, _st: &St, out: &mut Vec<Edge>) {
+    for variant in 0..crate::exec_views::N_RAW_VARIANTS { for then in 0..crate::exec_clone::N_THEN { out.push(Edge::RawParts { variant, then }); } }
+}
+
+/// byte / slice views and placement (C12)
+pub fn views(_r: &dyn Runner, _tier: Tier, _st: &St, out: &mut Vec<Edge>) {
+    for variant in 0..4u8 { out.push(Edge::Bytes { variant, k: 0 }); }
+    for variant in 4..6u8 { for k in 1..=2u8 { out.push(Edge::Bytes { variant, k }); } }
+    for k in 0..16u8 { out.push(Edge::Bytes { variant: 6, k }); }
+}
+
 fn movers(out: &mut Vec<Edge>) {
     out.push(Edge::Push(Api::Typed, Src::W));
     out.push(Edge::Pop(Api::Typed, Sink::Downcast));
@@ -309,6 +321,9 @@ pub fn edges_for(prop: Prop, tier: Tier, r: &dyn Runner, st: &St) -> Vec<Edge> {
                 } } } } }
             }
         }
+        Prop::C17 => { rawparts(r, tier, st, &mut v); movers(&mut v); if r.resizable() { v.push(Edge::Cap(Api::Erased, CapCall::Reserve, 2)); v.push(Edge::Cap(Api::Erased, CapCall::ShrinkToFit, 0)); } }
+        Prop::C12 => { views(r, tier, st, &mut v); capacity(r, tier, st, bounds(prop, tier).lmax, &mut v); elementwise(r, tier, st, &mut v); v.retain(|e| !matches!(e, Edge::Cap(_, CapCall::PushRun, _))); }
+        Prop::C11 => { elementwise(r, tier, st, &mut v); ranges(r, tier, st, true, &mut v); clones(r, tier, st, &mut v); }
         Prop::C10 => { capacity(r, tier, st, bounds(prop, tier).lmax, &mut v); elementwise(r, tier, st, &mut v); }
         Prop::C04 => { wrong_types(r, tier, st, &mut v); movers(&mut v); }
         Prop::C03 | Prop::C05 => { elementwise(r, tier, st, &mut v); ranges(r, tier, st, true, &mut v); clones(r, tier, st, &mut v); lazies(r, tier, st, &mut v); }
@@ -323,7 +338,7 @@ pub fn reports(prop: Prop, class: Class, e: &Edge) -> bool {
     if class == Class::Machinery { return true; }
     match prop {
         Prop::C09 => matches!(class, Class::Vec | Class::Type | Class::Own),
-        Prop::C01 | Prop::C02 | Prop::C13 | Prop::C17 | Prop::C19 => matches!(class, Class::Vec | Class::Type | Class::Iter),
+        Prop::C01 | Prop::C02 | Prop::C13 | Prop::C19 => matches!(class, Class::Vec | Class::Type | Class::Iter),
         Prop::C08 => matches!(class, Class::Vec | Class::Type | Class::Cap | Class::Mem),
         Prop::C03 => class == Class::Own,
         Prop::C04 => matches!(class, Class::Type | Class::Vec | Class::Own),
@@ -332,6 +347,7 @@ pub fn reports(prop: Prop, class: Class, e: &Edge) -> bool {
         Prop::C10 => matches!(class, Class::Cap | Class::Vec),
         Prop::C11 => matches!(class, Class::Cap | Class::Vec | Class::Alloc),
         Prop::C12 => matches!(class, Class::Vec | Class::Mem),
+        Prop::C17 => matches!(class, Class::Vec | Class::Type | Class::Own | Class::Alloc),
         Prop::C14 => class == Class::Iter,
         Prop::C18 => class == Class::Alloc,
     }
